@@ -278,6 +278,15 @@ pub fn miri_run(args: &[String]) -> i32 {
     };
     #[cfg(verif_degraded)]
     let (a, b, c): (Vec<f64>, Vec<f64>, Vec<f64>) = (Vec::new(), Vec::new(), Vec::new());
+    // setters that store through `NonZero*::new_unchecked` / bit casts: the clamps in front of them must keep the precondition
+    let mut kept = 0;
+    for r in [0.0, -0.0, -1.0, f64::MIN_POSITIVE, 1e-320, 0.01, 1.0, 100.0, 1e9, f64::INFINITY, f64::NEG_INFINITY] {
+        let d = rosu_pp::Difficulty::new().clock_rate(r);
+        if d.inspect().clock_rate.is_some() {
+            kept += 1;
+        }
+    }
+    assert_eq!(kept, 11, "an explicit clock rate must stay set");
     // decoder scratch buffers
     for (text, _) in pathbuf_cases("quick").iter().take(12) {
         let _ = Beatmap::from_str(text);
